@@ -845,6 +845,8 @@ def _schedule(prop, tier, seed):
     quick = tier == "quick"
     if prop == "C01":
         cases = lm_core("lf") + lm_core("ll")
+        # the same definition on a case-insensitive build (two links per letter child in the trie: seeded C01c)
+        cases += [Case("c01lf_ci_infix", ["abcd", "bce", "bc"], mk="lf", ci=True), Case("c01ll_ci_infix", ["abcd", "bce", "bc"], mk="ll", ci=True)]
         if not quick:
             cases += seeded_cases("c01lf", seed, 10, "lf") + seeded_cases("c01ll", seed, 10, "ll")
         else:
@@ -876,6 +878,8 @@ def _schedule(prop, tier, seed):
     if prop == "C03":
         cases = [Case(c.name.replace("c02", "c03"), c.pats, mk="std") for c in std_core()]
         cases += seeded_cases("c03", seed, 2 if quick else 10, "std")
+        # case-insensitive build with the empty pattern (start-state matches copied once per child: seeded C03c)
+        cases.append(Case("c03_ci_empty", ["", "aB"], mk="std", ci=True))
 
         def mk(facts):
             hs = []
